@@ -16,7 +16,13 @@ def run(ctx):
     items = M.sample(ctx, items, 2500 if th else 300, 1)
     r, it = M.mc(ctx, "MetaDB_map2.cfg", "map2", {"MaxOps": "= 4"}, INV, PROP, export=True)
     items += M.sample(ctx, it, 2500 if th else 300, 2)
+    # deletion of the NEWEST ids after the budgets are spent, then the metric asks again (MAX(id) of
+    # the table is not monotone; the allowance and the never-reissued ids must not depend on it)
+    r, it = M.mc(ctx, "MetaDB_map3.cfg", "map3", {"MaxOps": "= 6" if th else "= 5"}, INV, PROP, export=True)
+    items += M.sample(ctx, it, 2500 if th else 400, 3, first=M.newest_deleted_then_asked)
     if th:
+        M.expect_model_violation(ctx, "MetaDB_map3.cfg", "deviation last-id-from-max",
+                                 {"Bugs": '= {"last-id-from-max"}', "MaxOps": "= 5"}, "FloodBound", "", "FloodBound")
         M.mc(ctx, "MetaDB_map.cfg", "map deep", {"MaxOps": "= 4"}, INV, PROP, timeout=7200, coverage=True)
         M.mc(ctx, "MetaDB_map2.cfg", "map2 deep", {"MaxOps": "= 6"}, INV, PROP, timeout=7200)
         # liveness of the flood bound: the unrounded reset time switched back on breaks it
